@@ -305,6 +305,39 @@ def Op.scatFill (np ny : Nat) (I : Nat → Nat) (w : V α) : Op α where
   eval := scatterAddDrop np ny I w
   adj := gatherFill0 ny I w
 
+/-! #### slab loops of `XRayTransform3D._project` / `_back_project` (`MAX_SLICE_LEN`) -/
+
+/-- `_project` for one view and one of the four scatter terms AS CODED: the volume is processed in slabs of `B` voxels
+    (`MAX_SLICE_LEN` slices of `n₁·n₂` voxels); slab `k` is scattered with the indices / weights computed for it with
+    `slice_offset = k·MAX_SLICE_LEN` (they are `I (k*B + p)`, `w (k*B + p)`), and the detector image is accumulated over
+    the slabs -/
+def slabScatter (B nslab np ny : Nat) (I : Nat → Nat) (w x : V α) : V α :=
+  fun j => sumTo nslab (fun k =>
+    scatterAddDrop (min B (np - k * B)) ny (fun p => I (k * B + p)) (fun p => w (k * B + p)) (fun p => x (k * B + p)) j)
+
+/-- `_back_project`: slab `k` of the volume is gathered at the positions computed for slab `k` -/
+def slabGather (B : Nat) (J : Nat → Nat) (w y : V α) : V α :=
+  fun p => gatherAt (fun q => J ((p / B) * B + q)) (fun q => w ((p / B) * B + q)) y (p % B)
+
+/-- the seeded change C01-m2: the slab offset is not forwarded to the index computation of the back-projector
+    (every slab is gathered at the positions of the first one) -/
+def slabGatherNoOffset (B : Nat) (J : Nat → Nat) (w y : V α) : V α :=
+  fun p => gatherAt J (fun q => w ((p / B) * B + q)) y (p % B)
+
+/-- one scatter term of the 3-D projector with the slab loops of the code (`J` = clamped gather positions) -/
+def Op.scatSlab (B nslab np ny : Nat) (I J : Nat → Nat) (w : V α) : Op α where
+  nin := np
+  nout := ny
+  eval := slabScatter B nslab np ny I w
+  adj := slabGather B J w
+
+/-- … with the back-projector of the seeded change C01-m2 -/
+def Op.scatSlabNoOffset (B nslab np ny : Nat) (I J : Nat → Nat) (w : V α) : Op α where
+  nin := np
+  nout := ny
+  eval := slabScatter B nslab np ny I w
+  adj := slabGatherNoOffset B J w
+
 /-- 2-D detector of shape `(d0,d1)`: flat index, `d0*d1` (off the detector) when either coordinate is out of range -/
 def flat2 (d0 d1 a b : Nat) : Nat := if a < d0 ∧ b < d1 then a * d1 + b else d0 * d1
 /-- per-axis clamping of a 2-D index as `y[a, b]` does -/
